@@ -67,6 +67,26 @@ fn hslot(ctx: Ctx, h: u8) -> usize {
     ctx.th * SLOTS_PER_THREAD + (h as usize % SLOTS_PER_THREAD)
 }
 
+
+/// Guards that are temporarily outside the guard table (between two operations of one thread)
+/// stay enumerable for the ledger in `tmp_guards`. Several threads can be in such a gap at once,
+/// so an entry is taken back by its token, never by position.
+fn tmp_push(e: GEntry) -> u64 {
+    w(|w| {
+        w.tmp_seq += 1;
+        w.tmp_tokens.push(w.tmp_seq);
+        w.tmp_guards.push(e);
+        w.tmp_seq
+    })
+}
+fn tmp_take(tok: u64) -> Option<GEntry> {
+    w(|w| {
+        let i = w.tmp_tokens.iter().position(|t| *t == tok)?;
+        w.tmp_tokens.remove(i);
+        Some(w.tmp_guards.remove(i))
+    })
+}
+
 pub fn get_cont(c: u8) -> Option<Rc<Cont>> {
     w(|w| w.conts.get(c as usize).and_then(|e| e.c.clone()))
 }
@@ -278,9 +298,9 @@ fn op_load(ctx: Ctx, c: u8, g: Option<u8>) {
             }
             None => {
                 // keep it enumerable while the load op ends, then drop it as its own op
-                w(|w| w.tmp_guards.push(e));
+                let tok = tmp_push(e);
                 rt::op_end();
-                let e = w(|w| w.tmp_guards.pop());
+                let e = tmp_take(tok);
                 if let Some(e) = e {
                     rt::op_begin(OP_GUARD_DROP);
                     drop_guard_entry(e, "load+drop");
@@ -362,9 +382,9 @@ fn op_guard_into_inner(ctx: Ctx, g: u8, h: u8) {
 /// Empties handle slot `h` first (as its own operation) while `keep` stays enumerable.
 fn op_drop_handle_keep(ctx: Ctx, h: u8, keep: Option<GEntry>) -> Option<GEntry> {
     if let Some(k) = keep {
-        w(|w| w.tmp_guards.push(k));
+        let tok = tmp_push(k);
         op_drop_handle(ctx, h);
-        w(|w| w.tmp_guards.pop())
+        tmp_take(tok)
     } else {
         op_drop_handle(ctx, h);
         None
@@ -397,6 +417,10 @@ fn op_guard_from_inner(ctx: Ctx, c: u8, h: u8, g: u8) {
 }
 
 fn op_send_guard(ctx: Ctx, g: u8, to: u8) {
+    // The scheduling point comes first: putting the guard into the mailbox and posting (which
+    // publishes the sender's clock) are one indivisible step, so a receiver can never take a
+    // guard whose sender it has not synchronised with.
+    rt::sched_point();
     let e = w(|w| w.guards[gslot(ctx, g)].take());
     let Some(e) = e else { return };
     let sem = w(|w| {
@@ -405,7 +429,7 @@ fn op_send_guard(ctx: Ctx, g: u8, to: u8) {
         w.guards_moved += 1;
         w.mail[to].sem
     });
-    rt::sem_post(sem);
+    rt::sem_post_now(sem);
 }
 
 fn op_recv_drop(ctx: Ctx) {
@@ -419,9 +443,9 @@ fn op_recv_drop(ctx: Ctx) {
             }
         });
         if let Some(e) = e {
-            w(|w| w.tmp_guards.push(e));
+            let tok = tmp_push(e);
             rt::op_begin(OP_GUARD_DROP);
-            let e = w(|w| w.tmp_guards.pop()).unwrap();
+            let e = tmp_take(tok).unwrap();
             drop_guard_entry(e, "drop(guard received from another thread)");
             rt::op_end();
         }
@@ -589,7 +613,11 @@ fn op_cas(ctx: Ctx, c: u8, cur: Cur, form: u8, v: V, g: u8) {
                 };
                 // put the borrowed guard back
                 let (uid, addr, cont) = shell;
-                w(|w| w.inflight_guard_uids.retain(|u| *u != uid));
+                w(|w| {
+                    if let Some(i) = w.inflight_guard_uids.iter().position(|u| *u == uid) {
+                        w.inflight_guard_uids.remove(i);
+                    }
+                });
                 w(|w| w.guards[gslot(ctx, gs)] = Some(GEntry { g: wrap(gd), uid, addr, cont }));
                 out
             }
@@ -1301,9 +1329,9 @@ fn final_cleanup(ctx: Ctx, order: u8) {
                         None
                     });
                     let Some(e) = e else { break };
-                    w(|w| w.tmp_guards.push(e));
+                    let tok = tmp_push(e);
                     rt::op_begin(OP_GUARD_DROP);
-                    let e = w(|w| w.tmp_guards.pop()).unwrap();
+                    let e = tmp_take(tok).unwrap();
                     drop_guard_entry(e, "final drop(guard)");
                     rt::op_end();
                     if rt::is_aborting() {
